@@ -3887,3 +3887,40 @@ package decimal128
 //@ ensures FX && FY && SAME ==> eq
 //@ ensures !special(x) && !special(y) && coef(x) == 0 && coef(y) == 0 ==> eq && (cx == cy <==> sign(x) == sign(y))
 //@ props C19
+
+// Encoding independence of the comparisons (C19): replacing x by another cohort member x2 (same sign, same
+// exact value; or another zero of the same sign) changes no answer of Cmp, Compare or Equal against any y.
+//@ func verifCmpCohort
+//@ returns (a, b, c, d, e, f)
+//@ logical Vx real, Vy real
+//@ requires !special(x) && !special(x2) && sign(x) == sign(x2)
+//@ requires Vx >= 0 && rs(Vx, bexp(x)) == coef(x) && rs(Vx, bexp(x2)) == coef(x2)
+//@ requires !special(y) ==> Vy >= 0 && rs(Vy, bexp(y)) == coef(y)
+//@ call Decimal.Cmp#1: Vd = Vx
+//@ call Decimal.Cmp#1: Vo = Vy
+//@ call Decimal.Cmp#2: Vd = Vx
+//@ call Decimal.Cmp#2: Vo = Vy
+//@ call Compare#1: Vd = Vx
+//@ call Compare#1: Vo = Vy
+//@ call Compare#2: Vd = Vx
+//@ call Compare#2: Vo = Vy
+//@ mention rs(Vx, bexp(y)) + rs(Vy, bexp(x)) + rs(Vy, bexp(x2))
+//@ apply before "return a, b, c, d, e, f" when {!special(y)}: cmpmag_is_real_order(Vx, Vy, coef(x), bexp(x), coef(y), bexp(y))
+//@ apply before "return a, b, c, d, e, f" when {!special(y)}: cmpmag_is_real_order(Vx, Vy, coef(x2), bexp(x2), coef(y), bexp(y))
+//@ ensures a == b
+//@ ensures c == d
+//@ ensures e == f
+//@ props C19
+
+// Encoding independence of Int64 (C19): two cohort members give the same integer and the same ok.
+//@ func verifInt64Cohort
+//@ returns (a, aok, b, bok)
+//@ logical V real, T int
+//@ requires !special(x) && !special(x2) && sign(x) == sign(x2)
+//@ requires V >= 0 && rs(V, bexp(x)) == coef(x) && rs(V, bexp(x2)) == coef(x2) && T >= 0 && T <= rs(V, 6176) && rs(V, 6176) < T + 1
+//@ call Decimal.Int64#1: V = V
+//@ call Decimal.Int64#1: T = T
+//@ call Decimal.Int64#2: V = V
+//@ call Decimal.Int64#2: T = T
+//@ ensures a == b && aok == bok
+//@ props C19
